@@ -20,7 +20,9 @@ import (
 	"net/netip"
 	"os"
 	"path/filepath"
+	"strconv"
 	"strings"
+	"syscall"
 	"time"
 
 	"github.com/gopacket/gopacket"
@@ -126,17 +128,22 @@ func init() {
 
 // ------------------------------------------------------------------ the router under configuration
 
-const (
-	localIA   = "1-ff00:0:110"
+const localIA = "1-ff00:0:110"
+
+// underlay addresses of the router under configuration (variables: the socket mode uses loopback)
+var (
 	intAddr   = "10.0.0.1:30042"
 	sibAddr   = "10.0.0.2:30042"
 	ext1Local = "192.168.1.1:50000"
 	ext1Rem   = "192.168.1.2:50000"
 	ext2Local = "192.168.2.1:50000"
 	ext2Rem   = "192.168.2.2:50000"
-	csAddr    = "10.0.0.9:30252"
-	cs2Addr   = "10.0.0.10:31000"
-	dsAddr    = "10.0.0.11:30254"
+)
+
+const (
+	csAddr  = "10.0.0.9:30252"
+	cs2Addr = "10.0.0.10:31000"
+	dsAddr  = "10.0.0.11:30254"
 )
 
 var masterKey = []byte("verif-master-key-0123456789abcdef")
@@ -228,7 +235,9 @@ func production(c caseCfg, dir string, op *recOpener) (*router.Connector, error)
 		return nil, fmt.Errorf("LoadConfig: %w", err)
 	}
 	dp := router.NewConnector(c.routerConfig(), env.Features{})
-	router.VerifCfgUnderlay(dp, "udpip").SetConnOpener(op)
+	if op != nil { // nil: the provider's own opener (conn.New, real sockets)
+		router.VerifCfgUnderlay(dp, "udpip").SetConnOpener(op)
+	}
 	iaCtx := &control.IACtx{Config: cfg, DP: dp}
 	if err := iaCtx.Configure(); err != nil {
 		return nil, fmt.Errorf("Configure: %w", err)
@@ -337,7 +346,7 @@ func runBuf(w *vt.Writer, rng *rand.Rand, orders [][]string, n int) {
 	id := 0
 	emit := func(c caseCfg, how string, order []string, op *recOpener, err error) {
 		w.Emit(vt.M{"ev": "reset", "id": id, "how": how, "order": strings.Join(order, ","), "rcv": c.rcv, "snd": c.snd,
-			"batch": c.batch, "reuse": c.reuse, "other": c.otherProv, "ok": err == nil})
+			"batch": c.batch, "reuse": c.reuse, "other": c.otherProv, "ok": err == nil, "rmax": 0, "wmax": 0, "rdef": 0, "wdef": 0})
 		id++
 		for _, o := range op.opens {
 			w.Emit(vt.M{"ev": "open", "kind": kindOf(o), "rcv": o.rcv, "snd": o.snd})
@@ -370,6 +379,101 @@ func runBuf(w *vt.Writer, rng *rand.Rand, orders [][]string, n int) {
 		op = &recOpener{reuse: c.reuse}
 		_, err = direct(c, order, op)
 		emit(c, "direct", order, op, err)
+	}
+}
+
+// ------------------------------------------------------------------ C17, down to the kernel
+// The router is built through the production path WITHOUT a test opener: the udpip provider calls
+// conn.New, which opens real UDP sockets on loopback addresses and applies conn.Config with
+// setsockopt. The driver then reads SO_RCVBUF / SO_SNDBUF back from every UDP socket of the
+// process (found through /proc/self/fd, identified by local / peer address). No privileges needed.
+
+type sockRec struct {
+	local, peer string
+	rcv, snd    int
+}
+
+func udpSockets() map[int]sockRec {
+	out := map[int]sockRec{}
+	ents, err := os.ReadDir("/proc/self/fd")
+	if err != nil {
+		vt.Fatal("reading /proc/self/fd: %v", err)
+	}
+	for _, e := range ents {
+		fd, err := strconv.Atoi(e.Name())
+		if err != nil {
+			continue
+		}
+		typ, err := syscall.GetsockoptInt(fd, syscall.SOL_SOCKET, syscall.SO_TYPE)
+		if err != nil || typ != syscall.SOCK_DGRAM {
+			continue
+		}
+		sa, err := syscall.Getsockname(fd)
+		if err != nil {
+			continue
+		}
+		in4, ok := sa.(*syscall.SockaddrInet4)
+		if !ok {
+			continue
+		}
+		r := sockRec{local: netip.AddrPortFrom(netip.AddrFrom4(in4.Addr), uint16(in4.Port)).String(), peer: "-"}
+		if pa, err := syscall.Getpeername(fd); err == nil {
+			if p4, ok := pa.(*syscall.SockaddrInet4); ok {
+				r.peer = netip.AddrPortFrom(netip.AddrFrom4(p4.Addr), uint16(p4.Port)).String()
+			}
+		}
+		r.rcv, _ = syscall.GetsockoptInt(fd, syscall.SOL_SOCKET, syscall.SO_RCVBUF)
+		r.snd, _ = syscall.GetsockoptInt(fd, syscall.SOL_SOCKET, syscall.SO_SNDBUF)
+		out[fd] = r
+	}
+	return out
+}
+
+func sysctlInt(p string) int {
+	b, err := os.ReadFile(p)
+	if err != nil {
+		return -1
+	}
+	v, _ := strconv.Atoi(strings.TrimSpace(string(b)))
+	return v
+}
+
+func runSock(w *vt.Writer, rng *rand.Rand, n int) {
+	rmax, wmax := sysctlInt("/proc/sys/net/core/rmem_max"), sysctlInt("/proc/sys/net/core/wmem_max")
+	rdef, wdef := sysctlInt("/proc/sys/net/core/rmem_default"), sysctlInt("/proc/sys/net/core/wmem_default")
+	// clearly distinct sizes: the kernel reports between the requested value and twice that value
+	sizes := [][2]int{{300000, 700000}, {700000, 300000}, {65536, 262144}, {262144, 65536}, {0, 500000}, {500000, 0}}
+	for i := 0; i < n; i++ {
+		sz := sizes[i%len(sizes)]
+		base := 20000 + rng.Intn(20000) + 16*i
+		intAddr = fmt.Sprintf("127.0.0.1:%d", base)
+		sibAddr = fmt.Sprintf("127.0.0.3:%d", base+1)
+		ext1Local, ext1Rem = fmt.Sprintf("127.0.0.1:%d", base+2), fmt.Sprintf("127.0.0.2:%d", base+3)
+		ext2Local, ext2Rem = fmt.Sprintf("127.0.0.1:%d", base+4), fmt.Sprintf("127.0.0.2:%d", base+5)
+		c := caseCfg{rcv: sz[0], snd: sz[1], batch: 8, reuse: true, rangeKind: "range", lo: 1024, hi: 65535, ovLo: -1, ovHi: -1}
+		before := udpSockets()
+		_, err := production(c, fmt.Sprintf("sock-%d", i), nil)
+		w.Emit(vt.M{"ev": "reset", "id": i, "how": "production-real-sockets", "order": "", "rcv": c.rcv, "snd": c.snd,
+			"batch": c.batch, "reuse": true, "other": "", "ok": err == nil, "rmax": rmax, "wmax": wmax, "rdef": rdef, "wdef": wdef})
+		if err != nil {
+			w.Emit(vt.M{"ev": "builderr", "err": err.Error()})
+			continue
+		}
+		for fd, r := range udpSockets() {
+			if _, old := before[fd]; old {
+				continue
+			}
+			kind := "unknown"
+			switch {
+			case r.local == intAddr && r.peer == "-":
+				kind = "internal"
+			case r.peer == sibAddr:
+				kind = "sibling"
+			case r.peer == ext1Rem || r.peer == ext2Rem:
+				kind = "external"
+			}
+			w.Emit(vt.M{"ev": "sock", "kind": kind, "rcv": r.rcv, "snd": r.snd})
+		}
 	}
 }
 
@@ -676,7 +780,7 @@ func readOrders(p string) [][]string {
 }
 
 func main() {
-	mode := flag.String("mode", "buf", "buf (C17) | port (C11)")
+	mode := flag.String("mode", "buf", "buf (C17) | sock (C17, real sockets) | port (C11)")
 	out := flag.String("out", "trace.ndjson", "output trace")
 	ord := flag.String("orders", "orders.txt", "configuration orders, one per line: comma-separated steps")
 	n := flag.Int("n", 0, "buf: number of size pairs; port: number of orders to run (0 = all)")
@@ -691,6 +795,11 @@ func main() {
 		runBuf(w, vt.Rand(17), orders, *n)
 	case "port":
 		runPort(w, vt.Rand(11), orders, *n)
+	case "sock":
+		if *n == 0 {
+			*n = 6
+		}
+		runSock(w, vt.Rand(1717), *n)
 	default:
 		vt.Fatal("unknown mode %q", *mode)
 	}
